@@ -84,6 +84,29 @@ namespace vt
         friend bool operator<=(const NA& a, const NA& b) { return a.id <= b.id; }
         friend bool operator>=(const NA& a, const NA& b) { return a.id >= b.id; }
     };
+    // An alternative that is constructible and assignable from (almost) anything, as an any-like or a type-erasing wrapper
+    // is - in particular from the variant that holds it.  What was swallowed that way is marked.
+    struct GR
+    {
+        static constexpr uint64_t swallowed = 31337;
+        uint64_t id;
+        explicit GR(uint64_t v) : id(v) { sim::fault_point(sim::FK_THROW); sim::registry().on_construct(this, 8, id, false); }
+        template <class U, class = typename std::enable_if<!std::is_same<typename std::decay<U>::type, GR>::value && !std::is_arithmetic<typename std::decay<U>::type>::value>::type>
+        GR(U&&) : id(swallowed) { sim::registry().on_construct(this, 8, id, false); }
+        GR(const GR& o) : id(o.id) { sim::fault_point(sim::FK_THROW); sim::registry().on_construct(this, 8, id, false); }
+        GR(GR&& o) noexcept : id(o.id) { sim::registry().on_construct(this, 8, id, false); }
+        template <class U, class = typename std::enable_if<!std::is_same<typename std::decay<U>::type, GR>::value && !std::is_arithmetic<typename std::decay<U>::type>::value>::type>
+        GR& operator=(U&&) { id = swallowed; return *this; }
+        GR& operator=(const GR&) = default;
+        GR& operator=(GR&&) = default;
+        ~GR() { sim::registry().on_destroy(this, 8); }
+        friend bool operator==(const GR& a, const GR& b) { return a.id == b.id; }
+        friend bool operator!=(const GR& a, const GR& b) { return a.id != b.id; }
+        friend bool operator<(const GR& a, const GR& b) { return a.id < b.id; }
+        friend bool operator>(const GR& a, const GR& b) { return a.id > b.id; }
+        friend bool operator<=(const GR& a, const GR& b) { return a.id <= b.id; }
+        friend bool operator>=(const GR& a, const GR& b) { return a.id >= b.id; }
+    };
     static_assert(std::is_trivially_destructible<TT>::value, "TT must be trivially destructible");
     static_assert(std::is_trivially_copy_assignable<DA>::value && !std::is_trivially_copy_constructible<DA>::value, "DA: trivial assignment, non-trivial copy");
 }
@@ -165,6 +188,10 @@ namespace
     {
         template <class... T>
         std::vector<std::pair<size_t, uint64_t>> operator()(const T&... x) const { return {Visitor1()(x)...}; }
+    };
+    struct MoveOutVisitor
+    {
+        template <class T> uint64_t operator()(T&& x) const { typename std::decay<T>::type y(std::forward<T>(x)); return Visitor1()(y).second; }
     };
     struct BigVisitor
     {
@@ -639,10 +666,19 @@ namespace
             Suspend s;
             // moving the value out through get<I>(std::move(v)) leaves a moved-from but live alternative
             uint64_t id = 0;
-            if (model[t].index == 1) { NC x = xtl::get<1>(std::move(slot[t].get())); id = x.id; }
-            if (model[t].index == 2) { TC x = xtl::get<2>(std::move(slot[t].get())); id = x.id; }
-            if (model[t].index == 3) { TM x = xtl::get<3>(std::move(slot[t].get())); id = x.id; }
-            if (model[t].index == 4) { TM2 x = xtl::get<4>(std::move(slot[t].get())); id = x.id; }
+            if (st.b & 1)
+            {
+                // the same through visit: an rvalue variant hands its alternative to the visitor as an rvalue, so a forwarding
+                // visitor moves it out - no copy constructor runs (nor can one throw)
+                uint64_t copies = registry().copies;
+                id = xtl::visit(MoveOutVisitor(), std::move(slot[t].get()));
+                if (registry().copies != copies) viol("model", "visit-category", "visit(f, std::move(v)) passed the alternative as an lvalue: the forwarding visitor copied it");
+                SIM_PROBE("rvalue_variant_visited");
+            }
+            else if (model[t].index == 1) { NC x = xtl::get<1>(std::move(slot[t].get())); id = x.id; }
+            else if (model[t].index == 2) { TC x = xtl::get<2>(std::move(slot[t].get())); id = x.id; }
+            else if (model[t].index == 3) { TM x = xtl::get<3>(std::move(slot[t].get())); id = x.id; }
+            else if (model[t].index == 4) { TM2 x = xtl::get<4>(std::move(slot[t].get())); id = x.id; }
             if (id != model[t].id) viol("model", "ret", "get<I>(std::move(v)) yielded another value");
             model[t].moved = true;
             SIM_PROBE("moved_from_alternative");
@@ -852,7 +888,17 @@ namespace
         static const char* xname() { return "NA"; }
         static const char* yname() { return "DB"; }
     };
+    struct SetGreedy
+    {
+        using X = GR; using Y = DB;
+        static constexpr bool tracked = true;
+        static X mkx(uint64_t id) { return X(id); }
+        static uint64_t idx(const X& x) { return x.id; }
+        static const char* xname() { return "GR"; }
+        static const char* yname() { return "DB"; }
+    };
     template <class S> struct reg_tag_x { static constexpr int value = 5; };
+    template <> struct reg_tag_x<SetGreedy> { static constexpr int value = 8; };
     template <> struct reg_tag_x<SetConverting> { static constexpr int value = 7; };
 
     template <class S>
@@ -995,8 +1041,8 @@ namespace
         void op_construct(const Step& st)
         {
             int t = st.actor % 3;
-            static const char* const vn[] = {"default", "in_place_index", "converting_lvalue", "converting_rvalue", "copy", "move"};
-            unsigned v = static_cast<unsigned>(st.d % 6);
+            static const char* const vn[] = {"default", "in_place_index", "converting_lvalue", "converting_rvalue", "copy", "move", "copy_const_rvalue"};
+            unsigned v = static_cast<unsigned>(st.d % 7);
             size_t alt = static_cast<size_t>(st.a % 3);
             int src = (t + 1 + static_cast<int>(st.c % 2)) % 3;
             std::string var = std::string(vn[v]) + ((v >= 1 && v <= 3) ? std::string("_") + alt_name(alt) : (v >= 4 ? "_from_" + name_of(model[src]) : std::string()));
@@ -1017,6 +1063,7 @@ namespace
                 case 2: with_alt(alt, [&](auto I) { auto val = quiet(I, id); new (p) SV(val); }); break;
                 case 3: with_alt(alt, [&](auto I) { auto val = quiet(I, id); new (p) SV(std::move(val)); }); break;
                 case 4: new (p) SV(static_cast<const SV&>(slot[src].get())); want = pre_src; break;
+                case 6: new (p) SV(std::move(static_cast<const SV&>(slot[src].get()))); want = pre_src; break;
                 default: new (p) SV(std::move(slot[src].get())); want = pre_src; break;
                 }
             }
@@ -1031,18 +1078,22 @@ namespace
         {
             int t = st.actor % 3;
             int src = static_cast<int>(st.c % 3);
-            std::string var = name_of(model[t]) + "_from_" + (src == t ? std::string("self") : name_of(model[src]));
+            // a const rvalue source (std::move of a const variant, a function returning const variant) is a copy assignment
+            bool const_rvalue = !move && (st.b & 2);
+            std::string var = name_of(model[t]) + "_from_" + (const_rvalue ? "const_rvalue_" : "") + (src == t ? std::string("self") : name_of(model[src]));
             Scope sc(*this, st, move ? "move_assign" : "copy_assign", var);
             MV pre = model[t], pre_src = model[src];
             bool threw = false;
             try
             {
                 if (move) slot[t].get() = std::move(slot[src].get());
+                else if (const_rvalue) slot[t].get() = std::move(static_cast<const SV&>(slot[src].get()));
                 else slot[t].get() = static_cast<const SV&>(slot[src].get());
             }
             catch (const Injected&) { threw = true; }
             if (threw) { settle_after_throw(t, pre, &pre_src); if (src != t) settle_source(src, pre_src); if (model[t].valueless) SIM_PROBE("valueless_by_assignment"); }
             else { if (src != t) { model[t] = pre_src; settle_source(src, pre_src); } }
+            if (const_rvalue && !threw) SIM_PROBE("assigned_from_const_rvalue_variant");
             if (!pre.valueless && !pre_src.valueless && pre.index != pre_src.index && src != t) SIM_PROBE("assignment_switching_alternative_defaulted_or_trivial_set");
             ++run.changing;
             check_all();
@@ -1248,4 +1299,5 @@ namespace
     RegisterCfg reg_b("int_DA_DB_defaulted_assignment", gen, exec_small<SmallWorld<SetDefaulted>>, 1, false);
     RegisterCfg reg_c("int_double_TT_trivially_destructible", gen, exec_small<SmallWorld<SetTrivial>>, 1, false);
     RegisterCfg reg_d("int_NA_DB_converting_assignment", gen_conv, exec_small<SmallWorld<SetConverting>>, 1, false);
+    RegisterCfg reg_e("int_GR_DB_alternative_constructible_from_anything", gen, exec_small<SmallWorld<SetGreedy>>, 1, false);
 }
